@@ -76,10 +76,10 @@ type attempt struct {
 	ip      netip.Addr
 	port    int
 	network string
-	outcome string // connected | denied | refused | timeout | noaddr | badaddr
-	conn    int    // connection id when connected
+	outcome string        // connected | denied | refused | timeout | noaddr | badaddr
+	conn    int           // connection id when connected
 	started time.Duration // when the dial call began
-	op      int    // the operation (request) on whose behalf the dial happened, 0 if unknown
+	op      int           // the operation (request) on whose behalf the dial happened, 0 if unknown
 }
 
 func (a attempt) String() string {
@@ -147,10 +147,10 @@ type simNet struct {
 	z  *zone
 	mu sync.Mutex
 
-	state    map[netip.Addr]int // default: refused
-	attempts []attempt
-	requests []served
-	nconn    int
+	state      map[netip.Addr]int // default: refused
+	attempts   []attempt
+	requests   []served
+	nconn      int
 	serverEnds []net.Conn
 
 	ln   *pipeListener
